@@ -2532,6 +2532,16 @@ def _accept_rule(ctx, RID, roots, KINDS, floor):
                         probs.append('with the filter accepting the element the predicate is %s, not true: a match can be passed over' % t_str(val)[:80])
                     if not want and not (val == ('const', 0) or direct) and uses_pred:
                         probs.append('with the filter rejecting the element the predicate is %s, not false: a non-match can be reported' % t_str(val)[:80])
+            if not uses_pred and kind in ('filter', 'take_while', 'skip_while', 'filter_map', 'map_while') and RID == 'C05-ACCEPT':
+                # a filtering adaptor whose closure consults no user test (`.filter(|c| *c)` after `.map(is_accepted)`, or
+                # `.filter(|inner| inner.size_hint().0 > 0)`): decided on the whole chain up to and including it - one symbolic element
+                # is pushed through with the user tests fixed; it must come out exactly when they accept
+                sem, why = chain_emits_iff_accepted(ctx, b, c['res'])
+                okc = sem is True
+                out.inst(key, okc, 'chain-level: %s' % why, sample={'body': key_of(b), 'adaptor': kind, 'closure': key_of(cb), 'decided_by': why})
+                if not okc:
+                    out.fail(key, '%s: the closure of `%s` consults no user test and the chain up to it does not hand on exactly the accepted elements (%s): elements are dropped (or kept) by a criterion of the library\'s own' % (key_of(b), kind, why), cb.where())
+                continue
             if not uses_pred:
                 # a search that does not consult a user predicate (e.g. `.find_map(|x| inner_search(x))`): its step is checked where it searches
                 out.inst(key, True, 'no user predicate in this step', nontrivial=False)
@@ -3188,6 +3198,73 @@ def check_reduce_body(ctx, out, tb, depth=0):
     return check_accumulators(ctx, out, 'C03-THREAD', tb, combine_ok, chain_reduce_ok, init_ok)
 
 
+def check_reduce_seed(ctx, out, tb):
+    """The element that *seeds* an accumulator (`let mut acc = first; for x in rest { acc = reduce(acc, x) }`) must itself have passed
+    every user test of the kernel.  For each returned loop-carried accumulator whose initial value derives from a pull, the task is
+    re-executed with one test rejecting everything: if the loop is still reached with a pulled seed, the seed must have been drawn
+    from a chain that applies that very test (decided by chain_emits_iff_accepted)."""
+    F = ctx.facts
+    I = items(ctx)
+    r = ctx.run(tb.name)
+    fbs = tb.fn_bounds()
+    required = set()
+    if any(fbs.get(local_type_param(tb, l), {}).get('output') == 'bool' for l in tb.arg_locals()):
+        required.add('filter')
+    bodies = [tb] + F.closures_in(tb, recursive=True)
+    if any(decl(t).endswith('Fallible::has_value') or 'Fallible' in (t.get('callee_full') or '') and method(t) == 'has_value' for bd in bodies for _, t in bd.calls()):
+        required.add('value')
+    phis = set()
+    for alt in alternatives(r.ret):
+        for x in subterms(alt):
+            if x[0] == 'phi':
+                phis.add((x[1], x[2]))
+    for _ in range(3):
+        for k in list(phis):
+            for t_ in list(r.recur.get(k, ())) + [r.init.get(k)]:
+                if t_ is not None:
+                    phis |= {(x[1], x[2]) for x in subterms(t_) if x[0] == 'phi'}
+    for k in sorted(phis):
+        init = r.init.get(k)
+        if init is None or init == none() or const_int(init) or init[0] == 'phi' or not from_current_pull(ctx, I.normalize(init)):
+            continue
+        key = 'C05-SEED/%s' % key_of(tb)
+        probs = []
+        for test in sorted(required):
+            ft, hv = (test != 'filter'), (test != 'value')
+            rr = ctx.opa.run(tb.name, seeds=_feed_seeds(tb, tb.name, ft, hv))
+            i2 = rr.init.get(k)
+            if i2 is None:
+                # under this answer the accumulator may never change, so it is no loop phi in this run: its value at the loop head
+                i2 = rr.state.get(k[0], {}).get(k[1])
+            if k[0] in rr.visited and i2 is not None and i2 != none() and from_current_pull(ctx, I.normalize(i2)):
+                # drawn from a chain that applies the test?
+                chain = None
+                for x in subterms(i2):
+                    if x[0] == 'call' and (is_next_call(x) or is_iter_method(x, ('find', 'find_map', 'reduce', 'last', 'nth'))) and x[2]:
+                        chain = x[2][0]
+                        break
+                okc = False
+                if chain is not None:
+                    sem, why = chain_emits_iff_accepted(ctx, tb, chain)
+                    okc = sem is True and test in getattr(chain_emits_iff_accepted, 'last_used', set())
+                if not okc:
+                    probs.append('the accumulator is seeded with %s although %s rejects every element: the seed never passed that test, so a rejected element contributes to the result and the test is not evaluated on it'
+                                 % (t_str(i2)[:90], 'the user filter' if test == 'filter' else 'has_value'))
+        out.inst(key, not probs, 'seed %s; tests %s' % (t_str(init)[:60], sorted(required)), sample={'task': key_of(tb), 'seed': t_str(init)[:160], 'tests': sorted(required)})
+        for p_ in probs[:1]:
+            out.fail(key, '%s: %s' % (key_of(tb), p_), tb.where())
+
+
+@rule('C05-SEED', 'the element that seeds an accumulator has passed every user test of the kernel')
+def c05_seed(ctx):
+    out = RuleOut('C05-SEED')
+    tasks = acc_tasks(ctx, False)
+    for tb in tasks:
+        check_reduce_seed(ctx, out, tb)
+    out.floor('reduce_tasks', len(tasks), 1 if not ctx.fixture else 0)
+    return out
+
+
 @rule('C03-THREAD', 'reduce tasks thread their accumulator: every update combines the previous value with the current pull\'s reduction')
 def c03_thread(ctx):
     out = RuleOut('C03-THREAD')
@@ -3381,6 +3458,7 @@ def chain_emits_iff_accepted(ctx, b, chain):
         rr, _ = run_case(True, False)
         if rr is not False:
             return (False if rr is True else None), 'an element without a value is %s' % ('still handed on' if rr is True else 'of unknown fate')
+    chain_emits_iff_accepted.last_used = set(used_total)
     if not used_total:
         return None, 'the chain consults no user test'
     return True, 'one item per accepted element (tests: %s)' % ', '.join(sorted(used_total))
